@@ -48,6 +48,7 @@ type AField struct {
 type AOneof struct {
 	Name string
 	Feat *AFeat
+	Opts int32 // 0 none, 1 present-but-empty OneofOptions, 2 uninterpreted_option
 }
 
 type AEnumValue struct {
@@ -76,6 +77,8 @@ type AMsg struct {
 	Enums      []*AEnum
 	Exts       []*AField
 	ExtRanges  []ARange // end exclusive
+	// ExtRangeOpts[i] selects the ExtensionRangeOptions of ExtRanges[i] (0 / missing = no options message; see rangeOptions)
+	ExtRangeOpts []int32
 	ResRanges  []ARange // end exclusive
 	ResNames   []string
 	MapEntry   bool
@@ -259,6 +262,10 @@ func (m *AMsg) toProto() *descriptorpb.DescriptorProto {
 		op := &descriptorpb.OneofDescriptorProto{Name: proto.String(o.Name)}
 		if o.Feat != nil {
 			op.Options = &descriptorpb.OneofOptions{Features: o.Feat.toProto()}
+		} else if o.Opts == 1 {
+			op.Options = &descriptorpb.OneofOptions{}
+		} else if o.Opts == 2 {
+			op.Options = &descriptorpb.OneofOptions{UninterpretedOption: []*descriptorpb.UninterpretedOption{uninterpreted("oneof_opt")}}
 		}
 		p.OneofDecl = append(p.OneofDecl, op)
 	}
@@ -271,8 +278,12 @@ func (m *AMsg) toProto() *descriptorpb.DescriptorProto {
 	for _, x := range m.Exts {
 		p.Extension = append(p.Extension, x.toProto())
 	}
-	for _, r := range m.ExtRanges {
-		p.ExtensionRange = append(p.ExtensionRange, &descriptorpb.DescriptorProto_ExtensionRange{Start: proto.Int32(r.Start), End: proto.Int32(r.End)})
+	for i, r := range m.ExtRanges {
+		xr := &descriptorpb.DescriptorProto_ExtensionRange{Start: proto.Int32(r.Start), End: proto.Int32(r.End)}
+		if i < len(m.ExtRangeOpts) {
+			xr.Options = rangeOptions(m.ExtRangeOpts[i], r)
+		}
+		p.ExtensionRange = append(p.ExtensionRange, xr)
 	}
 	for _, r := range m.ResRanges {
 		p.ReservedRange = append(p.ReservedRange, &descriptorpb.DescriptorProto_ReservedRange{Start: proto.Int32(r.Start), End: proto.Int32(r.End)})
@@ -386,4 +397,34 @@ func join(scope, name string) string {
 		return name
 	}
 	return scope + "." + name
+}
+
+func uninterpreted(name string) *descriptorpb.UninterpretedOption {
+	return &descriptorpb.UninterpretedOption{
+		Name:            []*descriptorpb.UninterpretedOption_NamePart{{NamePart: proto.String(name), IsExtension: proto.Bool(false)}},
+		IdentifierValue: proto.String("x"),
+	}
+}
+
+// rangeOptions: the ExtensionRangeOptions variants (each range of a message picks one independently, so that ranges
+// with and without options, and with DIFFERENT options, stand next to each other in every order).
+func rangeOptions(variant int32, r ARange) *descriptorpb.ExtensionRangeOptions {
+	switch variant {
+	case 1:
+		return &descriptorpb.ExtensionRangeOptions{} // present but empty
+	case 2:
+		return &descriptorpb.ExtensionRangeOptions{Verification: descriptorpb.ExtensionRangeOptions_UNVERIFIED.Enum()}
+	case 3:
+		return &descriptorpb.ExtensionRangeOptions{
+			Verification: descriptorpb.ExtensionRangeOptions_DECLARATION.Enum(),
+			Declaration: []*descriptorpb.ExtensionRangeOptions_Declaration{
+				{Number: proto.Int32(r.Start), FullName: proto.String(".decl.ext_a"), Type: proto.String("int32")},
+				{Number: proto.Int32(r.End - 1), Reserved: proto.Bool(true)},
+			}}
+	case 4:
+		return &descriptorpb.ExtensionRangeOptions{UninterpretedOption: []*descriptorpb.UninterpretedOption{uninterpreted("range_opt")}}
+	case 5:
+		return &descriptorpb.ExtensionRangeOptions{Features: &descriptorpb.FeatureSet{JsonFormat: descriptorpb.FeatureSet_ALLOW.Enum()}}
+	}
+	return nil
 }
